@@ -16,6 +16,23 @@
 // touches a batch or the database handle becomes `unknown "<pos>"`, which the Lean criterion
 // rejects. Only the standard library (go/ast, go/parser) is used; types are resolved syntactically
 // (struct fields, parameters, results of functions of the scanned packages).
+//
+// A second output (-fwout, lean/LiskVerif/Gen/WriteSkeletonsFW.lean, tie A of property C16) is generated
+// the same way from pkg/framework, pkg/db/diffdb, pkg/db/batchdb and pkg/trie/smt: the application side
+// of a block (ABIHandler.Commit / revert / Init / Finalize and what they call). Three things exist
+// only there (the C13 output is not affected by them):
+//   - batch VIEWS: a struct with exactly one *db.Batch field (framework.stateSMTBatch,
+//     batchdb.Database) created by a constructor that does nothing but store its batch parameter in
+//     that field. `v := ctor(.., batch, ..)` binds v to the batch; `v.M(..)` is `call "T.M" [("self", batch)]`
+//     (inside the methods of T the field is the batch parameter "self"); a view handed to a parameter
+//     of a writer interface type hands the batch on; any other use of a view is `unknown`;
+//   - SUMMARIES: the recursive, concurrent update family of pkg/trie/smt cannot be inlined. For every
+//     function of a summarised package with a writer parameter the translator checks that the parameter
+//     is used for Get/Set/Del and handed to functions of the family only (anything else: `unknown`) and
+//     emits `loop (batchSet p | batchDel p)` followed by the return;
+//   - TABLES: for every generated function the leaves (actions and calls) of its skeleton in order, each
+//     with the table it addresses (first component of the key expression, or the prefix the view was
+//     created with).
 package main
 
 import (
@@ -30,8 +47,31 @@ import (
 	"strings"
 )
 
-// scanned packages (relative to the repository root)
-var scanned = []string{"pkg/blockchain", "pkg/consensus", "pkg/db/diffdb"}
+// A mode is one generated file.
+type mode struct {
+	name       string
+	scanned    []string        // scanned packages (relative to the repository root)
+	primary    string          // functions of other packages get package-qualified names ("" = no qualification)
+	namespace  string          // Lean namespace
+	about      string          // header line
+	extraBatch map[string]bool // writer interface types treated like a batch (besides db.Batch, diffdb.DatabaseWriter)
+	summarised map[string]bool // packages whose functions with a writer parameter are emitted as checked summaries
+	views      bool            // batch views
+	tables     bool            // emit the `tables` / `summaries` lists
+	// request flags (`if req.DryRun {..}`): a function testing one is emitted twice, specialised to the flag
+	// being false (under its own name) and true (name + "." + flag)
+	flags []string
+}
+
+var modeC13 = &mode{name: "c13", scanned: []string{"pkg/blockchain", "pkg/consensus", "pkg/db/diffdb"},
+	namespace: "LiskVerif.Gen.WS"}
+
+var modeFW = &mode{name: "fw", scanned: []string{"pkg/framework", "pkg/db/diffdb", "pkg/db/batchdb", "pkg/trie/smt"},
+	primary: "framework", namespace: "LiskVerif.Gen.WSFW",
+	extraBatch: map[string]bool{"smt.DBReadWriter": true, "smt.DBWriter": true},
+	summarised: map[string]bool{"smt": true}, views: true, tables: true, flags: []string{"DryRun"}}
+
+var cur = modeC13
 
 const dbPkgDir = "pkg/db"
 
@@ -41,7 +81,7 @@ const (
 	tWriter = "diffdb.DatabaseWriter"
 )
 
-func isBatchType(t string) bool { return t == tBatch || t == tWriter }
+func isBatchType(t string) bool { return t == tBatch || t == tWriter || cur.extraBatch[t] }
 
 // method names that mutate a database when they appear in an interface
 var writeNames = map[string]bool{"Set": true, "Del": true, "Write": true, "DropAll": true, "NewBatch": true, "Delete": true, "Apply": true}
@@ -58,6 +98,7 @@ type pkg struct {
 	structs map[string]map[string]string
 	ifaces  map[string][]string
 	funcs   map[string]*fn
+	viewFld map[string]string // struct with exactly one *db.Batch field -> that field (batch view)
 }
 
 type param struct{ name, typ string }
@@ -76,11 +117,39 @@ type fn struct {
 	interest bool
 	root     bool
 	emit     bool
+	// batch views
+	ctorView  string // constructor of a view: the view type it returns ("" = not a constructor)
+	ctorParam int    // index of its batch parameter
+	selfBatch bool   // method of a view type: the view's batch field is the batch parameter "self"
+	// summaries
+	summary []string // non-nil: emitted as a summary; the functions of its family (sorted)
+	// flag specialisation
+	assume  map[string]bool // request flags fixed for this skeleton
+	variant string          // "" or the flag this copy assumes to be true
 }
 
-func (f *fn) qkey() string { return f.key }
+func (f *fn) qkey() string {
+	if cur.primary != "" && f.pkg.name != cur.primary {
+		return f.pkg.name + "." + f.key
+	}
+	return f.key
+}
 func (f *fn) leanName() string {
-	return strings.ReplaceAll(f.key, ".", "_")
+	return strings.ReplaceAll(f.qkey(), ".", "_")
+}
+
+// batchParamNames lists the batch-typed parameters ("self" first for a method of a view type).
+func (f *fn) batchParamNames() []string {
+	var bp []string
+	if f.selfBatch {
+		bp = append(bp, "self")
+	}
+	for _, p := range f.params {
+		if isBatchType(p.typ) {
+			bp = append(bp, p.name)
+		}
+	}
+	return bp
 }
 
 type stmt struct {
@@ -91,6 +160,7 @@ type stmt struct {
 	callee *fn
 	args   [][2]string
 	pos    string
+	tag    string // table addressed by a staging action / handed-on batch (tables output)
 }
 
 type gen struct {
@@ -100,16 +170,36 @@ type gen struct {
 	dbWrites map[string]string // DB method -> "pebbleMethod:option"
 	dbAll    map[string]bool
 	batchOps map[string][]string // db.Batch method -> pebble.Batch methods it calls on b.inner
+	dbCtors  map[string]bool     // plain functions of pkg/db whose first result is *DB (NewDB, NewInMemoryDB)
 }
 
 func main() {
 	repo := flag.String("repo", "/repo", "repository root")
-	out := flag.String("out", "", "output Lean file")
+	out := flag.String("out", "", "output Lean file (block path of the engine, C13)")
+	fwout := flag.String("fwout", "", "output Lean file of the framework mode (application commit / revert, C16)")
+	modeName := flag.String("mode", "", "with neither -out nor -fwout: print this mode (c13 | fw) to stdout")
 	flag.Parse()
-	g := &gen{repo: *repo, pkgs: map[string]*pkg{}, byPath: map[string]string{}, dbWrites: map[string]string{}, dbAll: map[string]bool{}, batchOps: map[string][]string{}}
-	if err := g.run(*out); err != nil {
-		fmt.Fprintln(os.Stderr, "wskelgen:", err)
-		os.Exit(1)
+	runMode := func(m *mode, out string) {
+		cur = m
+		g := &gen{repo: *repo, pkgs: map[string]*pkg{}, byPath: map[string]string{}, dbWrites: map[string]string{}, dbAll: map[string]bool{}, batchOps: map[string][]string{}, dbCtors: map[string]bool{}}
+		if err := g.run(out); err != nil {
+			fmt.Fprintln(os.Stderr, "wskelgen["+m.name+"]:", err)
+			os.Exit(1)
+		}
+	}
+	if *out == "" && *fwout == "" {
+		if *modeName == "fw" {
+			runMode(modeFW, "")
+		} else {
+			runMode(modeC13, "")
+		}
+		return
+	}
+	if *out != "" {
+		runMode(modeC13, *out)
+	}
+	if *fwout != "" {
+		runMode(modeFW, *fwout)
 	}
 }
 
@@ -119,7 +209,7 @@ func (g *gen) parsePkg(rel string) (*pkg, error) {
 	if err != nil {
 		return nil, err
 	}
-	p := &pkg{rel: rel, fset: token.NewFileSet(), types: map[string]bool{}, structs: map[string]map[string]string{}, ifaces: map[string][]string{}, funcs: map[string]*fn{}}
+	p := &pkg{rel: rel, fset: token.NewFileSet(), types: map[string]bool{}, structs: map[string]map[string]string{}, ifaces: map[string][]string{}, funcs: map[string]*fn{}, viewFld: map[string]string{}}
 	for _, e := range ents {
 		n := e.Name()
 		if e.IsDir() || !strings.HasSuffix(n, ".go") || strings.HasSuffix(n, "_test.go") || strings.HasSuffix(n, "_verif.go") {
@@ -217,6 +307,23 @@ func (g *gen) collect(p *pkg) {
 							}
 						}
 						p.structs[ts.Name.Name] = m
+						if cur.views {
+							nb, fld := 0, ""
+							for _, fl := range t.Fields.List {
+								if g.typeKey(p, imps, fl.Type) == tBatch {
+									nb += len(fl.Names)
+									if len(fl.Names) == 0 {
+										nb += 2 // an embedded batch is not a view
+									}
+									for _, n := range fl.Names {
+										fld = n.Name
+									}
+								}
+							}
+							if nb == 1 {
+								p.viewFld[ts.Name.Name] = fld
+							}
+						}
 					case *ast.InterfaceType:
 						var ms []string
 						for _, fl := range t.Methods.List {
@@ -272,6 +379,90 @@ func (g *gen) collect(p *pkg) {
 			}
 		}
 	}
+	if cur.views {
+		for _, f := range p.funcs {
+			if f.recvType != "" && p.viewFld[strings.TrimPrefix(f.recvType, p.name+".")] != "" && f.recvName != "" {
+				f.selfBatch = true
+			}
+			g.detectCtor(p, f)
+		}
+	}
+}
+
+// viewField returns the batch field of a view type given by its type key ("" = not a view type).
+func (g *gen) viewField(tk string) string {
+	i := strings.Index(tk, ".")
+	if i < 0 {
+		return ""
+	}
+	if p := g.pkgs[tk[:i]]; p != nil {
+		return p.viewFld[tk[i+1:]]
+	}
+	return ""
+}
+
+// detectCtor recognises a constructor of a batch view: exactly one *db.Batch parameter, the first
+// result is a view type of the same package, and the body is a single `return &T{.., fld: param, ..}`
+// (or `return T{..}`) in which the parameter occurs exactly once, as the value of the view's batch field.
+func (g *gen) detectCtor(p *pkg, f *fn) {
+	if f.recvType != "" || len(f.results) == 0 {
+		return
+	}
+	idx, n := -1, 0
+	for i, pa := range f.params {
+		if pa.typ == tBatch {
+			idx = i
+			n++
+		}
+	}
+	if n != 1 || f.params[idx].name == "_" {
+		return
+	}
+	vt := f.results[0]
+	if !strings.HasPrefix(vt, p.name+".") {
+		return
+	}
+	fld := p.viewFld[strings.TrimPrefix(vt, p.name+".")]
+	if fld == "" || len(f.decl.Body.List) != 1 {
+		return
+	}
+	rs, ok := f.decl.Body.List[0].(*ast.ReturnStmt)
+	if !ok || len(rs.Results) != 1 {
+		return
+	}
+	e := rs.Results[0]
+	if u, ok := e.(*ast.UnaryExpr); ok && u.Op == token.AND {
+		e = u.X
+	}
+	cl, ok := e.(*ast.CompositeLit)
+	if !ok || cl.Type == nil || g.typeKey(p, g.imports(f.file), cl.Type) != vt {
+		return
+	}
+	pname := f.params[idx].name
+	stored := false
+	for _, el := range cl.Elts {
+		kv, ok := el.(*ast.KeyValueExpr)
+		if !ok {
+			return
+		}
+		if k, ok := kv.Key.(*ast.Ident); ok && k.Name == fld {
+			if v, ok := kv.Value.(*ast.Ident); ok && v.Name == pname {
+				stored = true
+			}
+		}
+	}
+	uses := 0
+	for _, el := range cl.Elts {
+		ast.Inspect(el.(*ast.KeyValueExpr).Value, func(n ast.Node) bool {
+			if id, ok := n.(*ast.Ident); ok && id.Name == pname {
+				uses++
+			}
+			return true
+		})
+	}
+	if stored && uses == 1 {
+		f.ctorView, f.ctorParam = vt, idx
+	}
 }
 
 // scanDB derives the write methods of db.DB from pkg/db/db.go.
@@ -283,6 +474,13 @@ func (g *gen) scanDB() error {
 	for _, f := range p.files {
 		for _, d := range f.Decls {
 			fd, ok := d.(*ast.FuncDecl)
+			if ok && fd.Recv == nil && fd.Type.Results != nil && len(fd.Type.Results.List) > 0 {
+				if st, ok := fd.Type.Results.List[0].Type.(*ast.StarExpr); ok {
+					if id, ok := st.X.(*ast.Ident); ok && id.Name == "DB" {
+						g.dbCtors[fd.Name.Name] = true
+					}
+				}
+			}
 			if !ok || fd.Recv == nil || fd.Body == nil || len(fd.Recv.List) != 1 {
 				continue
 			}
@@ -375,8 +573,26 @@ type ftr struct {
 	f      *fn
 	imps   map[string]string
 	vars   map[string]string
-	loops  []string // stack of innermost breakable statements: "loop" | "switch"
-	nonNil []string // identifiers known to be non-nil (inside `if id != nil {`)
+	loops  []string          // stack of innermost breakable statements: "loop" | "switch"
+	nonNil []string          // identifiers known to be non-nil (inside `if id != nil {`)
+	views  map[string]string // local variable bound to a batch view -> the underlying batch
+	vtag   map[string]string // ... -> how the view was created (constructor and its other arguments)
+	saw    map[string]bool   // request flags tested by the function
+}
+
+// flagCond recognises `x.Flag` / `!x.Flag` for a configured request flag.
+func flagCond(e ast.Expr) (flag string, negated bool, ok bool) {
+	if u, isU := e.(*ast.UnaryExpr); isU && u.Op == token.NOT {
+		f, n, ok := flagCond(u.X)
+		return f, !n, ok
+	}
+	if p, isP := e.(*ast.ParenExpr); isP {
+		return flagCond(p.X)
+	}
+	if s, isS := e.(*ast.SelectorExpr); isS && contains(cur.flags, s.Sel.Name) {
+		return s.Sel.Name, false, true
+	}
+	return "", false, false
 }
 
 func (t *ftr) pos(n ast.Node) string {
@@ -428,9 +644,52 @@ func (t *ftr) batchIdent(e ast.Expr) (string, bool) {
 			if isBatchType(t.vars[x.Name]) {
 				return x.Name, true
 			}
+		case *ast.SelectorExpr:
+			// v.fld of a local view v: its batch; recv.fld inside a method of a view type: "self"
+			if id, ok := x.X.(*ast.Ident); ok {
+				if fld := t.g.viewField(t.vars[id.Name]); fld != "" && fld == x.Sel.Name {
+					if b, ok := t.views[id.Name]; ok {
+						return b, true
+					}
+					if t.f.selfBatch && id.Name == t.f.recvName {
+						return "self", true
+					}
+				}
+			}
 		}
 		return "", false
 	}
+}
+
+// viewIdent returns the batch behind a local view variable.
+func (t *ftr) viewIdent(e ast.Expr) (string, bool) {
+	for {
+		switch x := e.(type) {
+		case *ast.ParenExpr:
+			e = x.X
+			continue
+		case *ast.Ident:
+			b, ok := t.views[x.Name]
+			return b, ok
+		}
+		return "", false
+	}
+}
+
+// keyTag names the table a key expression addresses: the first component of a bytes.Join / JoinSize,
+// otherwise the expression itself.
+func keyTag(e ast.Expr) string {
+	if c, ok := e.(*ast.CallExpr); ok {
+		if s, ok := c.Fun.(*ast.SelectorExpr); ok && (s.Sel.Name == "Join" || s.Sel.Name == "JoinSize") {
+			for _, a := range c.Args {
+				switch a.(type) {
+				case *ast.Ident, *ast.SelectorExpr:
+					return exprString(a)
+				}
+			}
+		}
+	}
+	return exprString(e)
 }
 
 func (t *ftr) lookupType(tk string) (*pkg, string) {
@@ -472,12 +731,24 @@ func (t *ftr) typeOf(e ast.Expr) string {
 		if c := t.resolve(x); c != nil && len(c.results) > 0 {
 			return c.results[0]
 		}
+		if t.isDBCtor(x) {
+			return tDB
+		}
 	case *ast.CompositeLit:
 		if x.Type != nil {
 			return t.g.typeKey(t.f.pkg, t.imps, x.Type)
 		}
 	}
 	return ""
+}
+
+// isDBCtor recognises db.NewDB(..) / db.NewInMemoryDB(): a call of a plain function of pkg/db returning *DB.
+func (t *ftr) isDBCtor(c *ast.CallExpr) bool {
+	s, ok := c.Fun.(*ast.SelectorExpr)
+	if !ok || !cur.views || !t.isPkgAlias(s.X) { // framework mode only (keeps the C13 output as it was)
+		return false
+	}
+	return t.imps[s.X.(*ast.Ident).Name] == "db" && t.g.dbCtors[s.Sel.Name]
 }
 
 // resolve finds the callee of a call among the scanned packages.
@@ -536,6 +807,8 @@ func (t *ftr) expr(e ast.Expr, out *[]*stmt) {
 	case *ast.Ident:
 		if isBatchType(t.vars[x.Name]) {
 			*out = append(*out, t.unknown(x, "batch "+x.Name+" escapes"))
+		} else if _, isView := t.views[x.Name]; isView {
+			*out = append(*out, t.unknown(x, "batch view "+x.Name+" escapes"))
 		}
 	case *ast.ParenExpr:
 		t.expr(x.X, out)
@@ -547,6 +820,15 @@ func (t *ftr) expr(e ast.Expr, out *[]*stmt) {
 		t.expr(x.X, out)
 		t.expr(x.Y, out)
 	case *ast.SelectorExpr:
+		if b, ok := t.batchIdent(x); ok {
+			*out = append(*out, t.unknown(x, "batch "+b+" escapes through a view field"))
+			return
+		}
+		if id, ok := x.X.(*ast.Ident); ok {
+			if _, isView := t.views[id.Name]; isView {
+				return // a field of a view other than its batch (e.g. the collected keys)
+			}
+		}
 		if !t.isPkgAlias(x.X) {
 			t.expr(x.X, out)
 		}
@@ -579,12 +861,15 @@ func (t *ftr) call(c *ast.CallExpr, out *[]*stmt) {
 	var sel *ast.SelectorExpr
 	recvT := ""
 	recvBatch := ""
+	recvView, recvViewTag := "", ""
 	switch f := c.Fun.(type) {
 	case *ast.SelectorExpr:
 		sel = f
 		if !t.isPkgAlias(f.X) {
 			if b, ok := t.batchIdent(f.X); ok {
 				recvBatch = b
+			} else if b, ok := t.viewIdent(f.X); ok {
+				recvView, recvViewTag = b, t.vtag[f.X.(*ast.Ident).Name]
 			} else {
 				t.expr(f.X, out)
 				recvT = t.typeOf(f.X)
@@ -608,10 +893,17 @@ func (t *ftr) call(c *ast.CallExpr, out *[]*stmt) {
 		t.expr(c.Fun, out)
 	}
 	batchArgs := map[int]string{}
+	viewArgs := map[int]string{}
 	var dbArgs []int
 	for i, a := range c.Args {
 		if b, ok := t.batchIdent(a); ok {
 			batchArgs[i] = b
+			continue
+		}
+		if b, ok := t.viewIdent(a); ok {
+			// a view handed on: the callee stages into the underlying batch through the view's methods
+			batchArgs[i] = b
+			viewArgs[i] = t.vtag[a.(*ast.Ident).Name]
 			continue
 		}
 		if t.typeOf(a) == tDB {
@@ -622,9 +914,9 @@ func (t *ftr) call(c *ast.CallExpr, out *[]*stmt) {
 	if recvBatch != "" {
 		switch {
 		case sel.Sel.Name == "Set" && len(batchArgs) == 0:
-			*out = append(*out, t.action(c, fmt.Sprintf("batchSet %q", recvBatch), true))
+			*out = append(*out, t.tagged(t.action(c, fmt.Sprintf("batchSet %q", recvBatch), true), argTag(c)))
 		case sel.Sel.Name == "Del" && len(batchArgs) == 0:
-			*out = append(*out, t.action(c, fmt.Sprintf("batchDel %q", recvBatch), true))
+			*out = append(*out, t.tagged(t.action(c, fmt.Sprintf("batchDel %q", recvBatch), true), argTag(c)))
 		default:
 			*out = append(*out, t.unknown(c, "method "+sel.Sel.Name+" on batch "+recvBatch))
 		}
@@ -635,15 +927,15 @@ func (t *ftr) call(c *ast.CallExpr, out *[]*stmt) {
 		w, isWrite := t.g.dbWrites[name]
 		switch {
 		case name == "Write" && isWrite:
-			if b, ok := batchArgs[0]; ok && len(c.Args) == 1 {
-				*out = append(*out, t.action(c, fmt.Sprintf("write %q", b), true))
+			if b, ok := batchArgs[0]; ok && len(c.Args) == 1 && len(viewArgs) == 0 {
+				*out = append(*out, t.tagged(t.action(c, fmt.Sprintf("write %q", b), true), exprString(sel.X)))
 			} else {
 				*out = append(*out, t.unknown(c, "Write of an untracked batch"))
 			}
 		case name == "Set" && isWrite && len(batchArgs) == 0:
-			*out = append(*out, t.action(c, "directSet", true))
+			*out = append(*out, t.tagged(t.action(c, "directSet", true), exprString(sel.X)+" "+argTag(c)))
 		case name == "Del" && isWrite && len(batchArgs) == 0:
-			*out = append(*out, t.action(c, "directDel", true))
+			*out = append(*out, t.tagged(t.action(c, "directDel", true), exprString(sel.X)+" "+argTag(c)))
 		case isWrite:
 			*out = append(*out, t.unknown(c, "db.DB."+name+" ("+w+")"))
 		case name == "NewBatch":
@@ -674,6 +966,22 @@ func (t *ftr) call(c *ast.CallExpr, out *[]*stmt) {
 			return
 		}
 	}
+	if recvView != "" {
+		// v.M(..) on a local view v of type T: `call "T.M" [("self", batch)]`
+		var callee *fn
+		if p, tn := t.lookupType(t.typeOf(sel.X)); p != nil {
+			callee = p.funcs[tn+"."+sel.Sel.Name]
+		}
+		switch {
+		case callee == nil || !callee.selfBatch:
+			*out = append(*out, t.unknown(c, "method "+sel.Sel.Name+" on batch view "+exprString(sel.X)))
+		case len(batchArgs) > 0:
+			*out = append(*out, t.unknown(c, "batch passed to a method of batch view "+exprString(sel.X)))
+		default:
+			*out = append(*out, &stmt{kind: "call", callee: callee, args: [][2]string{{"self", recvView}}, pos: t.pos(c), tag: recvViewTag})
+		}
+		return
+	}
 	callee := t.resolve(c)
 	if callee == nil {
 		if len(batchArgs) > 0 {
@@ -684,6 +992,7 @@ func (t *ftr) call(c *ast.CallExpr, out *[]*stmt) {
 		return
 	}
 	var args [][2]string
+	var tags []string
 	idx := make([]int, 0, len(batchArgs))
 	for i := range batchArgs {
 		idx = append(idx, i)
@@ -693,6 +1002,13 @@ func (t *ftr) call(c *ast.CallExpr, out *[]*stmt) {
 		if i >= len(callee.params) || !isBatchType(callee.params[i].typ) {
 			*out = append(*out, t.unknown(c, "batch passed to a parameter that is not a batch of "+callee.key))
 			return
+		}
+		if vt, isView := viewArgs[i]; isView {
+			if callee.params[i].typ == tBatch {
+				*out = append(*out, t.unknown(c, "batch view passed as a batch to "+callee.key))
+				return
+			}
+			tags = append(tags, "through "+vt)
 		}
 		args = append(args, [2]string{callee.params[i].name, batchArgs[i]})
 	}
@@ -707,7 +1023,20 @@ func (t *ftr) call(c *ast.CallExpr, out *[]*stmt) {
 			return
 		}
 	}
-	*out = append(*out, &stmt{kind: "call", callee: callee, args: args, pos: t.pos(c)})
+	*out = append(*out, &stmt{kind: "call", callee: callee, args: args, pos: t.pos(c), tag: strings.Join(tags, "; ")})
+}
+
+func (t *ftr) tagged(s *stmt, tag string) *stmt {
+	s.tag = tag
+	return s
+}
+
+// argTag names the table addressed by the key argument of a Set / Del call.
+func argTag(c *ast.CallExpr) string {
+	if len(c.Args) == 0 {
+		return ""
+	}
+	return keyTag(c.Args[0])
 }
 
 func (t *ftr) block(l []ast.Stmt) *stmt {
@@ -806,7 +1135,36 @@ func (t *ftr) stmt(s ast.Stmt, out *[]*stmt) {
 					if id, ok := x.Lhs[0].(*ast.Ident); ok && id.Name != "_" {
 						t.expr(sl.X, out)
 						t.vars[id.Name] = tBatch
-						*out = append(*out, t.action(x, fmt.Sprintf("newBatch %q", id.Name), true))
+						*out = append(*out, t.tagged(t.action(x, fmt.Sprintf("newBatch %q", id.Name), true), exprString(sl.X)))
+						return
+					}
+				}
+				// v := ctor(.., batch, ..): a batch view
+				if cur.views {
+					if cal := t.resolve(c); cal != nil && cal.ctorView != "" {
+						id, ok := x.Lhs[0].(*ast.Ident)
+						b, isBatch := "", false
+						if cal.ctorParam < len(c.Args) {
+							b, isBatch = t.batchIdent(c.Args[cal.ctorParam])
+						}
+						_, rebound := t.views[id0(x.Lhs[0])]
+						if !ok || id.Name == "_" || !isBatch || x.Tok != token.DEFINE || rebound || isBatchType(t.vars[id0(x.Lhs[0])]) {
+							*out = append(*out, t.unknown(x, "batch view constructor "+cal.key+" not bound to a fresh variable"))
+							return
+						}
+						var others []string
+						for i, a := range c.Args {
+							if i == cal.ctorParam {
+								continue
+							}
+							if t.typeOf(a) != tDB {
+								t.expr(a, out)
+							}
+							others = append(others, exprString(a))
+						}
+						t.vars[id.Name] = cal.ctorView
+						t.views[id.Name] = b
+						t.vtag[id.Name] = cal.qkey() + "(" + strings.Join(others, ", ") + ")"
 						return
 					}
 				}
@@ -817,6 +1175,8 @@ func (t *ftr) stmt(s ast.Stmt, out *[]*stmt) {
 			if id, ok := l.(*ast.Ident); ok {
 				if isBatchType(t.vars[id.Name]) {
 					*out = append(*out, t.unknown(l, "batch variable "+id.Name+" reassigned"))
+				} else if _, isView := t.views[id.Name]; isView {
+					*out = append(*out, t.unknown(l, "batch view "+id.Name+" reassigned"))
 				}
 				continue
 			}
@@ -827,6 +1187,8 @@ func (t *ftr) stmt(s ast.Stmt, out *[]*stmt) {
 			if c, ok := x.Rhs[0].(*ast.CallExpr); ok {
 				if cal := t.resolve(c); cal != nil {
 					res = cal.results
+				} else if t.isDBCtor(c) {
+					res = []string{tDB, "error"}
 				}
 			}
 			for i, l := range x.Lhs {
@@ -880,6 +1242,18 @@ func (t *ftr) stmt(s ast.Stmt, out *[]*stmt) {
 			}
 		} else {
 			t.stmt(x.Init, out)
+		}
+		if flag, neg, ok := flagCond(x.Cond); ok && x.Init == nil {
+			t.saw[flag] = true
+			if v, fixed := t.f.assume[flag]; fixed {
+				// the flag is an input of the call: only one branch exists in this specialisation
+				if v != neg {
+					*out = append(*out, t.block(x.Body.List))
+				} else if x.Else != nil {
+					*out = append(*out, t.sub(x.Else))
+				}
+				return
+			}
 		}
 		t.expr(x.Cond, out)
 		known := ""
@@ -990,6 +1364,13 @@ func (t *ftr) stmt(s ast.Stmt, out *[]*stmt) {
 	}
 }
 
+func id0(e ast.Expr) string {
+	if id, ok := e.(*ast.Ident); ok {
+		return id.Name
+	}
+	return ""
+}
+
 func contains(l []string, s string) bool {
 	for _, x := range l {
 		if x == s {
@@ -1028,8 +1409,24 @@ func (t *ftr) clauses(l []ast.Stmt, out *[]*stmt) {
 	*out = append(*out, choiceN(alts))
 }
 
-func (g *gen) translate(f *fn) {
-	t := &ftr{g: g, f: f, imps: g.imports(f.file), vars: map[string]string{}}
+func (g *gen) translate(f *fn) (flags []string) {
+	t := g.newFtr(f)
+	if f.ctorView != "" {
+		// verified by detectCtor: stores its batch parameter in the view's batch field, nothing else
+		f.raw = skip()
+		return nil
+	}
+	f.raw = t.block(f.decl.Body.List)
+	for _, fl := range cur.flags {
+		if t.saw[fl] {
+			flags = append(flags, fl)
+		}
+	}
+	return flags
+}
+
+func (g *gen) newFtr(f *fn) *ftr {
+	t := &ftr{g: g, f: f, imps: g.imports(f.file), vars: map[string]string{}, views: map[string]string{}, vtag: map[string]string{}, saw: map[string]bool{}}
 	if f.recvName != "" {
 		t.vars[f.recvName] = f.recvType
 	}
@@ -1043,7 +1440,7 @@ func (g *gen) translate(f *fn) {
 			}
 		}
 	}
-	f.raw = t.block(f.decl.Body.List)
+	return t
 }
 
 // ---------------------------------------------------------------------------------------------
@@ -1126,6 +1523,195 @@ func prune(s *stmt) *stmt {
 	return s
 }
 
+// leafName renders an action or call the way Props/C16_Write.lean (`leafNames`) does.
+func leafName(s *stmt) string {
+	if s.kind == "call" {
+		n := "call " + s.callee.qkey()
+		for _, a := range s.args {
+			n += " " + a[1]
+		}
+		return n
+	}
+	a := strings.ReplaceAll(s.act, "\"", "")
+	if strings.HasPrefix(a, "unknown") {
+		return "unknown"
+	}
+	return a
+}
+
+// ---------------------------------------------------------------------------------------------
+// summaries of recursive / concurrent writer families (pkg/trie/smt)
+
+type sumInfo struct {
+	bad      string // "" = the writer parameter is used for Get/Set/Del and handed on within the family only
+	set, del bool
+	edges    []*fn
+	param    string
+}
+
+// writerUse analyses every use of the writer parameter of f.
+func (g *gen) writerUse(f *fn) *sumInfo {
+	info := &sumInfo{}
+	var obj *ast.Object
+	n := 0
+	for _, fl := range f.decl.Type.Params.List {
+		tk := g.typeKey(f.pkg, g.imports(f.file), fl.Type)
+		for _, nm := range fl.Names {
+			if isBatchType(tk) {
+				obj, info.param = nm.Obj, nm.Name
+				n++
+			}
+		}
+	}
+	if n != 1 || obj == nil {
+		info.bad = "not exactly one named writer parameter"
+		return info
+	}
+	t := g.newFtr(f)
+	var stack []ast.Node
+	ast.Inspect(f.decl.Body, func(nd ast.Node) bool {
+		if nd == nil {
+			stack = stack[:len(stack)-1]
+			return true
+		}
+		stack = append(stack, nd)
+		id, ok := nd.(*ast.Ident)
+		if !ok || id.Obj != obj || info.bad != "" {
+			return true
+		}
+		where := f.pkg.fset.Position(id.Pos())
+		fail := func(why string) { info.bad = fmt.Sprintf("%s:%d %s", where.Filename, where.Line, why) }
+		if len(stack) < 2 {
+			fail("writer used as a value")
+			return true
+		}
+		switch par := stack[len(stack)-2].(type) {
+		case *ast.SelectorExpr:
+			var call *ast.CallExpr
+			if len(stack) >= 3 {
+				call, _ = stack[len(stack)-3].(*ast.CallExpr)
+			}
+			if par.X != ast.Expr(id) || call == nil || call.Fun != ast.Expr(par) {
+				fail("writer used as a value")
+				return true
+			}
+			switch par.Sel.Name {
+			case "Get":
+			case "Set":
+				info.set = true
+			case "Del":
+				info.del = true
+			default:
+				fail("method " + par.Sel.Name + " of the writer")
+			}
+		case *ast.CallExpr:
+			j := -1
+			for i, a := range par.Args {
+				if a == ast.Expr(id) {
+					j = i
+				}
+			}
+			callee := t.resolve(par)
+			if j < 0 || callee == nil || j >= len(callee.params) {
+				fail("writer handed to an unresolved callee")
+				return true
+			}
+			pt := callee.params[j].typ
+			switch {
+			case isBatchType(pt) && cur.summarised[callee.pkg.name]:
+				info.edges = append(info.edges, callee)
+			case t.readOnlyIface(pt):
+			default:
+				fail("writer handed to " + callee.key + " as " + pt)
+			}
+		default:
+			fail("writer used as a value")
+		}
+		return true
+	})
+	return info
+}
+
+func (g *gen) summarise(fns []*fn) {
+	if len(cur.summarised) == 0 {
+		return
+	}
+	infos := map[*fn]*sumInfo{}
+	for _, f := range fns {
+		if !cur.summarised[f.pkg.name] {
+			continue
+		}
+		has := false
+		for _, p := range f.params {
+			if isBatchType(p.typ) {
+				has = true
+			}
+		}
+		if has {
+			infos[f] = g.writerUse(f)
+		}
+	}
+	for _, f := range fns {
+		info := infos[f]
+		if info == nil {
+			continue
+		}
+		// the family: everything reachable through writer hand-ons
+		seen := map[*fn]bool{f: true}
+		work := []*fn{f}
+		bad, set, del := "", false, false
+		for len(work) > 0 {
+			x := work[0]
+			work = work[1:]
+			xi := infos[x]
+			if xi == nil {
+				bad = "no writer analysis for " + x.key
+				break
+			}
+			if xi.bad != "" && bad == "" {
+				bad = xi.bad
+			}
+			set, del = set || xi.set, del || xi.del
+			for _, e := range xi.edges {
+				if !seen[e] {
+					seen[e] = true
+					work = append(work, e)
+				}
+			}
+		}
+		fam := []string{}
+		for x := range seen {
+			fam = append(fam, x.qkey())
+		}
+		sort.Strings(fam)
+		f.summary = fam
+		pos := f.pkg.fset.Position(f.decl.Pos())
+		where := fmt.Sprintf("%s:%d", pos.Filename, pos.Line)
+		if bad != "" {
+			f.raw = &stmt{kind: "act", act: fmt.Sprintf("unknown %q", where+" writer family of "+f.key+" cannot be summarised: "+bad), isDB: true, pos: where}
+			continue
+		}
+		var alts []*stmt
+		if set {
+			alts = append(alts, &stmt{kind: "act", act: fmt.Sprintf("batchSet %q", info.param), isDB: true})
+		}
+		if del {
+			alts = append(alts, &stmt{kind: "act", act: fmt.Sprintf("batchDel %q", info.param), isDB: true})
+		}
+		var body []*stmt
+		if len(alts) > 0 {
+			body = append(body, &stmt{kind: "loop", kids: []*stmt{choiceN(alts)}})
+		}
+		n := len(f.results)
+		if n > 0 && f.results[n-1] == "error" {
+			body = append(body, &stmt{kind: "choice", kids: []*stmt{{kind: "ret"}, {kind: "retErr"}}})
+		} else {
+			body = append(body, &stmt{kind: "ret", pos: where})
+		}
+		f.raw = seq(body...)
+	}
+}
+
 func (g *gen) all() []*fn {
 	var l []*fn
 	for _, p := range g.pkgs {
@@ -1137,7 +1723,10 @@ func (g *gen) all() []*fn {
 		if l[i].pkg.rel != l[j].pkg.rel {
 			return l[i].pkg.rel < l[j].pkg.rel
 		}
-		return l[i].decl.Pos() < l[j].decl.Pos()
+		if l[i].decl.Pos() != l[j].decl.Pos() {
+			return l[i].decl.Pos() < l[j].decl.Pos()
+		}
+		return l[i].key < l[j].key
 	})
 	return l
 }
@@ -1208,7 +1797,7 @@ func (g *gen) run(out string) error {
 	if err := g.scanDB(); err != nil {
 		return err
 	}
-	for _, rel := range scanned {
+	for _, rel := range cur.scanned {
 		p, err := g.parsePkg(rel)
 		if err != nil {
 			return err
@@ -1221,8 +1810,29 @@ func (g *gen) run(out string) error {
 		g.collect(p)
 	}
 	fns := g.all()
+	g.summarise(fns)
+	var variants []*fn
 	for _, f := range fns {
-		g.translate(f)
+		if f.summary != nil {
+			continue
+		}
+		if flags := g.translate(f); len(flags) == 1 && f.variant == "" {
+			// specialise: the function under its own name assumes the flag false, the copy assumes it true
+			fl := flags[0]
+			f.assume = map[string]bool{fl: false}
+			g.translate(f)
+			c := *f
+			c.key, c.variant, c.assume = f.key+"."+fl, fl, map[string]bool{fl: true}
+			c.raw, c.pruned = nil, nil
+			g.translate(&c)
+			f.pkg.funcs[c.key] = &c
+			variants = append(variants, &c)
+		} else if len(flags) > 1 {
+			f.raw = &stmt{kind: "act", act: fmt.Sprintf("unknown %q", f.key+" tests more than one request flag"), isDB: true}
+		}
+	}
+	if len(variants) > 0 {
+		fns = g.all()
 	}
 	// interest: fixpoint over "contains an action or a call to an interesting function"
 	for changed := true; changed; {
@@ -1268,9 +1878,9 @@ func (g *gen) run(out string) error {
 	}
 	var sb strings.Builder
 	sb.WriteString("/- GENERATED by tools/wskelgen from /repo — do not edit. Regenerated on every check run.\n")
-	sb.WriteString("   Write skeletons of every function of " + strings.Join(scanned, ", ") + " that creates, fills, hands on or\n")
+	sb.WriteString("   Write skeletons of every function of " + strings.Join(cur.scanned, ", ") + " that creates, fills, hands on or\n")
 	sb.WriteString("   writes a db.Batch or writes through the *db.DB handle, and of what they call. -/\n")
-	sb.WriteString("import LiskVerif.Model.Crash\n\nnamespace LiskVerif.Gen.WS\nopen LiskVerif.Crash\nopen LiskVerif.Crash.Stmt\n\n")
+	sb.WriteString("import LiskVerif.Model.Crash\n\nnamespace " + cur.namespace + "\nopen LiskVerif.Crash\nopen LiskVerif.Crash.Stmt\n\n")
 	var names, roots []string
 	var bparams []string
 	for _, f := range fns {
@@ -1281,19 +1891,23 @@ func (g *gen) run(out string) error {
 		if f.root {
 			roots = append(roots, f.qkey())
 		}
-		var bp []string
-		for _, p := range f.params {
-			if isBatchType(p.typ) {
-				bp = append(bp, p.name)
-			}
-		}
+		bp := f.batchParamNames()
 		bparams = append(bparams, fmt.Sprintf("(%q, %s)", f.qkey(), strList(bp)))
 		pos := f.pkg.fset.Position(f.decl.Pos())
 		var ps []string
 		for _, p := range f.params {
 			ps = append(ps, p.name)
 		}
-		sb.WriteString(fmt.Sprintf("/-- %s:%d  %s(%s); batch parameters: %s -/\n", pos.Filename, pos.Line, f.key, strings.Join(ps, ", "), strList(bp)))
+		extra := ""
+		if f.assume != nil {
+			for fl, v := range f.assume {
+				extra += fmt.Sprintf("; specialised to %s = %v", fl, v)
+			}
+		}
+		if f.summary != nil {
+			extra += "; SUMMARY (checked: the writer parameter is only used for Get/Set/Del and handed on within) of the family " + strList(f.summary)
+		}
+		sb.WriteString(fmt.Sprintf("/-- %s:%d  %s(%s); batch parameters: %s%s -/\n", pos.Filename, pos.Line, f.key, strings.Join(ps, ", "), strList(bp), extra))
 		sb.WriteString("def " + f.leanName() + " : Stmt :=\n  ")
 		lean(f.pruned, "  ", &sb)
 		sb.WriteString("\n\n")
@@ -1358,7 +1972,39 @@ func (g *gen) run(out string) error {
 		bms = append(bms, fmt.Sprintf("(%q, [%s])", m, strings.Join(qs, ", ")))
 	}
 	sb.WriteString("/-- methods of db.Batch (pkg/db) and the pebble.Batch methods (or own methods, `self.`) each calls -/\ndef batchMethods : List (String × List String) := [" + strings.Join(bms, ", ") + "]\n\n")
-	sb.WriteString("end LiskVerif.Gen.WS\n")
+	if cur.tables {
+		// leaves (actions and calls) of every skeleton in order, each with the table it addresses
+		var rows []string
+		for _, f := range fns {
+			if !f.emit {
+				continue
+			}
+			var ls []string
+			var walk func(s *stmt)
+			walk = func(s *stmt) {
+				switch s.kind {
+				case "act":
+					ls = append(ls, fmt.Sprintf("(%q, %q)", leafName(s), s.tag))
+				case "call":
+					ls = append(ls, fmt.Sprintf("(%q, %q)", leafName(s), s.tag))
+				}
+				for _, k := range s.kids {
+					walk(k)
+				}
+			}
+			walk(f.pruned)
+			rows = append(rows, fmt.Sprintf("  (%q, [%s])", f.qkey(), strings.Join(ls, ", ")))
+		}
+		sb.WriteString("/-- the leaves (actions, calls) of every skeleton in program order, each with the table it addresses: the first\n    component of the key expression of a Set / Del, the database of a NewBatch / Write, the constructor (with its\n    prefix argument) of the view a call stages through -/\ndef tables : List (String × List (String × String)) := [\n" + strings.Join(rows, ",\n") + "\n]\n\n")
+		var sums []string
+		for _, f := range fns {
+			if f.emit && f.summary != nil {
+				sums = append(sums, fmt.Sprintf("(%q, %s)", f.qkey(), strList(f.summary)))
+			}
+		}
+		sb.WriteString("/-- functions emitted as a checked summary, with the family each one stands for -/\ndef summaries : List (String × List String) := [" + strings.Join(sums, ", ") + "]\n\n")
+	}
+	sb.WriteString("end " + cur.namespace + "\n")
 	if out == "" {
 		fmt.Print(sb.String())
 		return nil
